@@ -22,6 +22,7 @@ FIELDS = {
     "C03": ("emits", "bufs", "pending"),
     "C04": ("fired", "counts", "pending"),
     "C05": ("counts", "fired"),
+    "C10": ("emitted", "deliveries"),       # tuples with their metadata tags
 }
 
 
